@@ -174,7 +174,7 @@ def compare(case, ml, il):
 # serde half: oracle
 # ---------------------------------------------------------------------------------------------
 ROUTE = re.compile(r"(\w+)=(\S+)")
-WITH_TEXT = ("toml_from_str", "edit_from_str", "from_imdoc")
+WITH_TEXT = ("toml_from_str", "edit_from_str", "from_imdoc", "edit_from_slice")
 WITHOUT_TEXT = ("from_docmut", "value_first", "table_first")
 SPANS_NO_TEXT = ("respanned",)      # items carry spans, the text is not available: the span must be right AND the key path rendered
 
@@ -494,6 +494,9 @@ def gen_deerr(rng, tier):
             if keys_alt is not None:
                 meta["keys_alt"] = keys_alt
             out.append(Case("deerr", [tag.encode(), text, lookup.encode()], meta))
+            # the same document behind a byte-order mark: every offset moves by three bytes, on every route alike
+            if rng.random() < 0.15:
+                out.append(Case("deerr", [tag.encode(), b"\xef\xbb\xbf" + text, lookup.encode()], dict(meta, kind=meta["kind"] + "+bom")))
 
     reps = 2 if quick else 30
     for _ in range(reps):
@@ -538,6 +541,10 @@ def gen_deerr(rng, tier):
         add("nested", b"x = 1\n\n  [t] # " + rng.choice(MB) + b"\nb = 1\n", "t", "t", "missing-nested")
         add("nested", b"t = { b = 1 }\n", "t", "t", "missing-nested")
         add("nested", b"t.b = 1\n", "t", "t", "missing-nested-dotted")
+        # the table's own header comes AFTER a header of one of its sub-tables (the implicit table is re-opened)
+        add("nested", b"[t.x]\nq = 1\n\n[t] # " + rng.choice(MB) + b"\nb = 1\n", "t", "t", "missing-nested-reopened")
+        add("nested", b"[t.x.y]\n[t.x]\n[t]\nb = 1\n[u]\n", "t", "t", "missing-nested-reopened")
+        add("nested", b"[[t.x]]\nq = 1\n[t]\nb = 'x'\nc = 'y'\n", "t/b", "t.b", "nested-reopened-leaf")
         add("vecinner", b"[[v]]\nb = 1\nc = 'x'\n[[v]]\nb = 2\n", "v/#1", "v", "missing-aot")
         add("vecinner", b"v = [{b = 1, c = 'x'}, {c = 'y'}]\n", "v/#1", "v", "missing-inline-array")
         add("vecinner", b"[[v]]\nb = 1\nc = 'x'\n[[v]]\nb = 'z'\nc = 'y'\n", "v/#1/b", "v.b", "aot-leaf")
